@@ -227,8 +227,10 @@ def print_assumptions(vfile, log):
             cur = []
             blocks.append(cur)
         elif cur is not None:
-            m = re.match(r"^([A-Za-z0-9_.']+)\s*:", line)
-            if m:
+            # an axiom entry starts in column 0 with its qualified name; its type may start on
+            # the same line or (for long names) on the next, indented, line
+            m = re.match(r"^([A-Za-z_][A-Za-z0-9_.']*)\s*(:|$)", line)
+            if m and not line.startswith(("File ", "Warning", "COQ")):
                 cur.append(m.group(1))
     if len(blocks) != len(names):
         return False, {}
